@@ -15,9 +15,10 @@ MAX_READS = 20000
 class FakeStdin(io.TextIOBase):
     """line source that counts how many answers were consumed; EOF when the script is exhausted"""
 
-    def __init__(self, answers, cycle=False):
+    def __init__(self, answers, cycle=False, tty=False):
         self.answers = list(answers)
         self.cycle = cycle
+        self.tty = tty
         self.consumed = 0
         self.eof_hit = False
 
@@ -42,7 +43,14 @@ class FakeStdin(io.TextIOBase):
         return self.readline()
 
     def isatty(self):
-        return False
+        return self.tty
+
+
+class TtyOut(io.StringIO):
+    """captured stdout that claims to be a terminal"""
+
+    def isatty(self):
+        return True
 
 
 def verkey(version):
@@ -68,13 +76,13 @@ def expected_prefix(version):
     raise ValueError(version)
 
 
-def run_builder(version, all_metrics, no_colors, answers, cycle=False):
-    """-> dict(kind='ret'|'eof'|'exc', value=..., consumed=n, out=str)"""
+def run_builder(version, all_metrics, no_colors, answers, cycle=False, tty=False):
+    """-> dict(kind='ret'|'eof'|'exc', value=..., consumed=n, out=str); tty=True: both streams claim to be a terminal"""
     import cvss
     import cvss.interactive as it
-    fake = FakeStdin(answers, cycle=cycle)
+    fake = FakeStdin(answers, cycle=cycle, tty=tty)
     old = (sys.stdin, sys.stdout)
-    out = io.StringIO()
+    out = TtyOut() if tty else io.StringIO()
     sys.stdin, sys.stdout = fake, out
     saved = getattr(it, "string_input", None)
     try:
@@ -181,7 +189,12 @@ def script_strategy(version, all_metrics, order, complete=None):
             n_bad = draw(st.sampled_from((0, 0, 0, 1, 1, 2, 3)))
             for _ in range(n_bad):
                 k = draw(st.integers(0, 4))
-                if k == 0:
+                if k == 0 and draw(st.booleans()):
+                    # what a terminal sends for cursor keys, bracketed paste, backspace ...: part of the answer, hence not legal
+                    val = draw(st.sampled_from(V.table[m]))
+                    a = draw(st.sampled_from(("\x1b[D" + val, val + "\x1b[1;5C", "\x1b[A", "\x1b[200~" + val + "\x1b[201~", val + "\x08", "\x7f" + val,
+                                              "\x00" + val, val + "\x1b", "\x1bO" + val, "^[[D" + val, val + "\\n", val + "&#10;", "%" + "%02X" % ord(val[0]) + val[1:])))
+                elif k == 0:
                     a = draw(st.text(alphabet=SAFE_JUNK, max_size=6))
                 elif k == 1:
                     a = draw(st.sampled_from(allvals))           # legal for some metric, maybe this one
